@@ -402,7 +402,25 @@ func opExt(args []string) string {
 	return run([]string{args[3]}) + "|" + run(ExpandTok(args[3]))
 }
 
+// escsets: the two 128-entry JSON escape tables as filled by json's init()
+//   -> <128 x 0/1 json set>|<128 x 0/1 html set>
+func opEscSets(args []string) string {
+	js, hs := json.VerifEscapeSets()
+	f := func(t []bool) string {
+		b := make([]byte, len(t))
+		for i, x := range t {
+			b[i] = '0'
+			if x {
+				b[i] = '1'
+			}
+		}
+		return string(b)
+	}
+	return f(js) + "|" + f(hs)
+}
+
 func init() {
+	RegisterOp("escsets", opEscSets)
 	RegisterOp("rt", opRT)
 	RegisterOp("chunk", opChunk)
 	RegisterOp("ext", opExt)
